@@ -80,7 +80,14 @@ def generate():
     for n in ast.walk(inv_ast):
         if isinstance(n, ast.If) and 'ParameterSource.DEFAULT' in ast.unparse(n.test):
             only_default = ast.unparse(n.test).replace(' ', '') == 'param_src==ParameterSource.DEFAULT'
-    out.append(f'Definition conf_overrides_default_only : bool := {"true" if only_default else "false"}.')
+    # ... and EVERY entry of the file takes part: the dictionary read from the file is used as it is (no filtering, no defaulting), the loop
+    # runs over all its items, and nothing but the rejection and the source test stands between an entry and ctx.params
+    cd = [ast.unparse(n.value) for n in ast.walk(inv_ast) if isinstance(n, ast.Assign) and ast.unparse(n.targets[0]) == 'config_dict']
+    loops = [n for n in ast.walk(inv_ast) if isinstance(n, ast.For) and ast.unparse(n.iter) == 'config_dict.items()']
+    whole = cd == ['yaml.safe_load(f)'] and len(loops) == 1 and not any(isinstance(n, ast.Continue) for n in ast.walk(loops[0]))
+    ifs_in_loop = [ast.unparse(n.test).replace(' ', '') for n in ast.walk(loops[0]) if isinstance(n, ast.If)] if loops else []
+    whole = whole and sorted(ifs_in_loop) == sorted(['conf_keynotinctx.params', 'param_src==ParameterSource.DEFAULT'])
+    out.append(f'Definition conf_overrides_default_only : bool := {"true" if only_default and whole else "false"}.')
     head = ('(* GENERATED by translate/cli_surface.py from the imported homonim.cli of the current working tree - do not edit. *)\n'
             'From Coq Require Import List String Bool.\nImport ListNotations.\nOpen Scope string_scope.\n\n')
     return head + '\n'.join(out) + '\n'
